@@ -10,6 +10,7 @@ ALL byte strings `raw : List Nat`, all group tables and all BeginStrings.
 import AsyncFix.Model.Codec.Reader
 import AsyncFix.Lemmas.CodecDecodeShape
 import AsyncFix.Lemmas.CodecDecodeCorrupt
+import AsyncFix.Lemmas.CodecDecodeSubst
 import AsyncFix.Lemmas.CodecDecodeWait
 import AsyncFix.Lemmas.CodecDecodeEval
 import AsyncFix.Model.Codec.Frame
@@ -199,6 +200,15 @@ theorem same_shape_corruption_rejected (bs : Bytes) (tbl : Tbl) (raw : Bytes) (m
     ∀ bs' tbl' raw' m' n',
       decode bs' tbl' raw' ≠ .msg m' n' ((a ++ y :: b) ++ SOH :: (tag10 ++ EQS :: v) ++ tail) :=
   edit_in_summed_region_rejected bs tbl raw m n _ _ v tail h hv ht (SumEdit1.subst a b x y hxy hx hy)
+
+/-- **No single-byte substitution of a returned frame is ever returned** – wherever the byte lies
+(summed region, the `SOH 10=` tag, the CheckSum digits, the final SOH) and whatever buffer, table or
+BeginString the modified bytes are decoded with. -/
+theorem no_substitution_returned (bs : Bytes) (tbl : Tbl) (raw : Bytes) (m : Msg) (n : Nat)
+    (a b : Bytes) (x y : Nat) (h : decode bs tbl raw = .msg m n (a ++ x :: b))
+    (hxy : x ≠ y) (hx : x < 256) (hy : y < 256) :
+    ∀ bs' tbl' raw' m' n', decode bs' tbl' raw' ≠ .msg m' n' (a ++ y :: b) :=
+  substitution_never_returned h hxy hx hy
 
 /-- … and when the substitution keeps the field structure (the piece still starts with the marker
 and gets no earlier `SOH "10="`), the buffer that starts with the corrupted frame yields NO message
